@@ -515,7 +515,7 @@ func ruleKMeansShape(r *Run, p string) {
 	// the centroid container
 	var cent *ssa.MakeSlice
 	allInstrs(fn, func(in ssa.Instruction) {
-		if mk, ok := in.(*ssa.MakeSlice); ok && types.TypeString(mk.Type(), nil) == "[][]float32" && cent == nil {
+		if mk, ok := in.(*ssa.MakeSlice); ok && tstr(mk.Type(), nil) == "[][]float32" && cent == nil {
 			cent = mk
 		}
 	})
@@ -680,7 +680,7 @@ func ruleKMeansShape(r *Run, p string) {
 				if vi, ok := st.Val.(ssa.Instruction); ok && callsArgmin(w, vi) {
 					isPhi = true // the index returned by the nearest-centroid routine
 				}
-				if isPhi && types.TypeString(ia.X.Type(), nil) == "[]int" {
+				if isPhi && tstr(ia.X.Type(), nil) == "[]int" {
 					okAssign = true
 				}
 			}
@@ -990,8 +990,8 @@ func ruleKMeansUpdate(r *Run, rule string) {
 			})
 		}
 		what := NewCanon(w).S(cont)
-		r.Check(fresh, rule, "kmeans:fresh-accumulator:"+types.TypeString(cont.Type(), nil), pos+" "+name,
-			"accumulator "+types.TypeString(cont.Type(), nil)+" is allocated anew (or reset) in every iteration", "accumulator "+what+" updated at "+pos+" is neither re-created nor reset inside the iteration loop: it carries values from earlier iterations")
+		r.Check(fresh, rule, "kmeans:fresh-accumulator:"+tstr(cont.Type(), nil), pos+" "+name,
+			"accumulator "+tstr(cont.Type(), nil)+" is allocated anew (or reset) in every iteration", "accumulator "+what+" updated at "+pos+" is neither re-created nor reset inside the iteration loop: it carries values from earlier iterations")
 	}
 	// centroid element = sums[c][d] / float32(sizes[c]), guarded by sizes[c] > 0; no other store to centroids in the loop
 	c := NewCanon(w)
@@ -1003,8 +1003,8 @@ func ruleKMeansUpdate(r *Run, rule string) {
 		}
 		if !isFloat32(st.Val.Type()) {
 			// a whole centroid replaced inside the loop (re-seeding)
-			if types.TypeString(st.Val.Type(), nil) == "[]float32" {
-				if ia, ok := st.Addr.(*ssa.IndexAddr); ok && types.TypeString(ia.X.Type(), nil) == "[][]float32" {
+			if tstr(st.Val.Type(), nil) == "[]float32" {
+				if ia, ok := st.Addr.(*ssa.IndexAddr); ok && tstr(ia.X.Type(), nil) == "[][]float32" {
 					if _, isMk := ia.X.(*ssa.MakeSlice); isMk && !iter.Blocks[ia.X.(*ssa.MakeSlice).Block()] {
 						other = w.InstrPos(st)
 					}
@@ -1024,7 +1024,7 @@ func ruleKMeansUpdate(r *Run, rule string) {
 		if ia, ok := st.Addr.(*ssa.IndexAddr); ok {
 			if ld, ok := ia.X.(*ssa.UnOp); ok && ld.Op == token.MUL {
 				if ia2, ok := ld.X.(*ssa.IndexAddr); ok {
-					if mk, isMk := ia2.X.(*ssa.MakeSlice); isMk && !iter.Blocks[mk.Block()] && types.TypeString(mk.Type(), nil) == "[][]float32" {
+					if mk, isMk := ia2.X.(*ssa.MakeSlice); isMk && !iter.Blocks[mk.Block()] && tstr(mk.Type(), nil) == "[][]float32" {
 						returned := false
 						for _, ret := range returnsOf(fn) {
 							for _, res := range ret.Results {
